@@ -31,6 +31,9 @@ func c13FoldExact(c *Ctx) (okExact bool) {
 	if f == nil || len(f.Params) != 2 {
 		return false
 	}
+	if os.Getenv("GSA_NOEXACT") != "" && os.Getenv("GSA_REPO") != "" {
+		return false // development aid: exercise the structural fall-back
+	}
 	if th := lengthThresholds(f, 8); len(th) > 0 {
 		c.L.Notef("ContainsFold treats long operands differently (%s): an evaluation on operands of a few bytes does not cover that; structural rules used instead", th[0])
 		return false
